@@ -50,6 +50,7 @@ class CallWriteHandler(AbstractWriteHandler):
         self.decompiler.source_map_add_opcode(op.offset)
         assert op.label is not None
         self.decompiler.write_stmnt(f"call @label_{op.label.id};")
+        self.decompiler.labels_jumped_to.append(op.label.id)
         exits = self.start_vertex.out_edges()
         assert 3 > len(exits) > 0, f"A call must have exactly one or two points to jump to, has {len(exits)}."
         # Continue with the operation after the call, not with the called label: that is the exit with the lower
